@@ -173,6 +173,17 @@ def run(ctx, eng):
     ctx.ob('ORD.gate', fi.qual, 'no push on pushed (even) streams', ok,
            'ProtocolError for an even parent before the promised stream is '
            'allocated', node=fi.node)
+    # the parent is looked up before anything that depends on its id is
+    # refused: a parent that is gone is reported as gone (StreamClosedError /
+    # NoSuchStreamError, C29), whatever its parity
+    late = [p for p in paths if cm.explicit_raise(p) is not None and any(
+        e.kind == 'assume' and parity_fact(e.cond, 'stream_id')
+        for e in p.events) and not cm.calls_to(p, '_get_stream_by_id')]
+    ctx.ob('ORD.lookup-first', fi.qual, 'parent looked up before the parity '
+           'refusal', not late, 'the recursive-push refusal is decided '
+           'before _get_stream_by_id(stream_id) has classified the parent'
+           if late else '_get_stream_by_id precedes the parity test',
+           node=fi.node)
     # ATOM(STR): raise after allocation
     sites = {}
     for p in cm.raise_paths(paths):
